@@ -165,6 +165,9 @@ func zzC10_gate() {
 			}
 		}
 		_, hasMeta := smpeer.FromContext(c.Context())
+		vObserve("fired", uint64(len(fired)))
+		vObserve("written", uint64(len(c.written)))
+		vObserve("meta", zzB2U(hasMeta))
 		vAssert(hasMeta == handshaken, "metadata present exactly after a successful exchange")
 	}
 	vReach("C10_gate")
